@@ -288,3 +288,86 @@ func VH_c13_race() {
 	}
 	verifrt.Assert("no-thread-left-blocked", verifrt.BlockedThreads() == 0)
 }
+
+func init() {
+	verifrt.Register("VH_c13_response", VH_c13_response)
+}
+
+var vhC13Responses = []string{"accepted-reply", "reply-with-data-the-feature-does-not-hold", "partial-reply-for-an-empty-store", "success-result", "error-result",
+	"result-without-error-number", "reply-from-an-unknown-feature", "reply-to-an-unknown-local-feature", "reply-referencing-another-counter", "notify-without-reference"}
+
+// C13 (through the receive path): a request of a local client feature is withheld while unanswered; any
+// datagram of the peer that references its counter - accepted or rejected by message handling - re-enables
+// sending; one that references another counter, or none, does not.
+func VH_c13_response() {
+	k := verifrt.ShardChoice("case", len(vhC13Responses))
+	verifrt.Scenario(vhC13Responses[k])
+	w := vhNewWorld(vhWorldOpts{onlyA: true, noEvents: true})
+	fn := model.FunctionTypeLoadControlLimitListData
+	srvAddr := vhAddr("A", []uint{1}, 2)
+	rf := w.rA.FeatureByAddress(srvAddr)
+	m0 := len(w.wA.msgs)
+	c1, err := w.F3.RequestRemoteData(fn, nil, nil, rf)
+	verifrt.Assert("request-succeeds", err == nil && c1 != nil && len(w.wA.msgs) == m0+1)
+	if err != nil || c1 == nil {
+		return
+	}
+	c1b, _ := w.F3.RequestRemoteData(fn, nil, nil, rf)
+	verifrt.Assert("identical-unanswered-request-is-withheld", len(w.wA.msgs) == m0+1 && c1b != nil && *c1b == *c1)
+
+	ref := *c1
+	src, dst := srvAddr, w.F3.Address()
+	cl := model.CmdClassifierTypeReply
+	ack := verifrt.Bool("ack")
+	cmd := model.CmdType{LoadControlLimitListData: vhLimitList(uint(verifrt.ConcreteInt(int(verifrt.Choice("limitId", 3)), 0, 2)), true)}
+	answered := true
+	switch vhC13Responses[k] {
+	case "accepted-reply":
+	case "reply-with-data-the-feature-does-not-hold":
+		cmd = model.CmdType{MeasurementListData: &model.MeasurementListDataType{}}
+	case "partial-reply-for-an-empty-store":
+		cmd.Filter = []model.FilterType{*model.NewFilterTypePartial()}
+	case "success-result":
+		cl = model.CmdClassifierTypeResult
+		cmd = model.CmdType{ResultData: &model.ResultDataType{ErrorNumber: util.Ptr(model.ErrorNumberType(0))}}
+	case "error-result":
+		cl = model.CmdClassifierTypeResult
+		cmd = model.CmdType{ResultData: &model.ResultDataType{ErrorNumber: util.Ptr(model.ErrorNumberType(1 + verifrt.Choice("errno", 9)))}}
+	case "result-without-error-number":
+		cl = model.CmdClassifierTypeResult
+		cmd = model.CmdType{ResultData: &model.ResultDataType{}}
+	case "reply-from-an-unknown-feature":
+		src = vhAddr("A", []uint{1}, 9)
+	case "reply-to-an-unknown-local-feature":
+		dst = vhAddr("L", []uint{1}, 9)
+	case "reply-referencing-another-counter":
+		other := verifrt.U64("otherRef")
+		verifrt.Assume(other != uint64(ref))
+		ref = model.MsgCounterType(other)
+		answered = false
+	case "notify-without-reference":
+		cl = model.CmdClassifierTypeNotify
+		answered = false
+	}
+	h := w.hdr(src, dst, cl, ack)
+	if vhC13Responses[k] != "notify-without-reference" {
+		h.MsgCounterReference = &ref
+	}
+	vhDeliver(w.rA, model.DatagramType{Header: h, Payload: model.PayloadType{Cmd: []model.CmdType{cmd}}})
+	verifrt.Reach("response-delivered")
+
+	// the identical request once more
+	m1 := len(w.wA.msgs)
+	reads := func() int { return vhCount(w.wA, m1).reads }
+	c2, err2 := w.F3.RequestRemoteData(fn, nil, nil, rf)
+	verifrt.Assert("second-request-succeeds", err2 == nil && c2 != nil)
+	if err2 != nil || c2 == nil {
+		return
+	}
+	if answered {
+		verifrt.Assert("a-response-referencing-the-counter-re-enables-sending", reads() == 1 && *c2 != *c1)
+	} else {
+		verifrt.Assert("still-unanswered-request-stays-withheld", reads() == 0 && *c2 == *c1)
+	}
+	verifrt.Observe("sent-again", reads())
+}
